@@ -302,6 +302,15 @@ func (c *Ctx) accountLayouts() {
 			}
 		}
 		okCrc = okCrc || formB
+		// ... or appended in place: binary.BigEndian.AppendUint16(tag|addr, crc) as the last piece of the encoded chain
+		for _, cl := range callsTo(f, "encoding/base32.Encoding.EncodeToString") {
+			if ch := appendChain(cl.Call.Args[1]); len(ch) >= 3 && len(ws) == 0 {
+				last := ch[len(ch)-1]
+				if strings.HasPrefix(last, "BE16(") && strings.Contains(last, "Crc16") {
+					okCrc = true
+				}
+			}
+		}
 		c.check(okCrc, R, "ADNL base32: crc16 stored big-endian", f.Pos(), fieldsString(ws), "ADNLAddressToBase32 stores the checksum as "+fieldsString(ws)+", the parser reads it BE16")
 		var tag int64 = -1
 		var chain []string
